@@ -33,8 +33,12 @@ class C19(Check):
             'of every flavour with the plain float64 array answer (1e-9 relative, in A), caller\'s unit and shape, '
             'argument bytes unchanged.  sdssflux2ab: 1-50 rows x 5 bands incl. negative/zero fluxes, all three forms '
             'on the same array object.  filter_thru: 1-6 traces x 50-600 px, SDSS-like / narrow / partly or fully '
-            'out-of-band / decreasing / noisy wavelength solutions as image and as trace set, toair on and off, random '
-            'masks with NaN/inf/1e300 under them.  Non-trivial: an airtovac case with >= 1 wavelength >= 2000 A, any '
+            'out-of-band / decreasing / noisy wavelength solutions as image and as trace set, plus pixel-by-pixel images '
+            'that are no polynomial in pixel number (2-3 spliced arms with dispersion ratio 2-30, a dispersion step '
+            'inside a band, overlapping arms = locally reversed wavelengths, repeated pixels, 1-3 pixels inside a band) '
+            'with a single bright pixel / top hat / line / step moved across the band from trace to trace; toair on and '
+            'off, random masks with NaN/inf/1e300 under them.  Every routine is called again on the same objects '
+            '(answers bit-identical, arguments byte-identical afterwards).  Non-trivial: an airtovac case with >= 1 wavelength >= 2000 A, any '
             'flux2ab case, a filter_thru case with >= 1 (trace, band) the wavelengths overlap; distinct by input hash.')
     ASSUMPTIONS = [
         'float64 wavelengths (a float32 wavelength cannot hold 1e-6 A); Quantity values below 2000 A in units other '
@@ -42,7 +46,8 @@ class C19(Check):
         'observed 2 ulp), in Angstrom / without unit bitwise',
         'elements within 1e-9 relative of 2000 A are undecided for inputs given in nm/um/m (unit conversion rounds)',
         'filter_thru: every trace keeps >= 1 unmasked pixel (a fully masked trace has no flux to average); '
-        'wavelength solutions strictly monotonic (increasing or decreasing); bands whose largest response over the '
+        'polynomial/noisy solutions strictly monotonic (increasing or decreasing), spliced images positive but '
+        'otherwise arbitrary (the docstring only asks for a full wavelength image); bands whose largest response over the '
         'trace lies in (0, 1e-6) are undecided; nothing is asserted about the value returned for a band without overlap',
         'filter_thru weighted-mean model compared only for polynomial (degree <= 4) log-wavelength solutions, where '
         'the cubic fit of the pixel size inside filter_thru is exact; response = second column (respt) of the tables',
